@@ -142,7 +142,7 @@ def run(c, prog):
         c.violation(R, f"grammar|{v}", f"attribute type {v}: {msg}", loc or w.sp, instance=f"arm:{v}")
     c.sample({"rule": R, "writer_grammar(excerpt)": shape.render(enc)[:14], "reader_grammar(excerpt)": shape.render(dec)[:10]})
     n_ok = 0
-    for subst, sinks in outcomes:
+    for subst, sinks, _conds in outcomes:
         for sk in sinks:
             name, term, conds, loc = sk[0], sk[1], sk[2], sk[3]
             assume = shape.assumptions(conds)
